@@ -245,6 +245,7 @@ def derive(aa, obj, d):
 def build_grid(aa, g):
     k = g["k"]
     store = g.get("store", "slim")
+    dt = int if g.get("dtype") == "int" else float      # integer arrays are kept as they are by the structures
     if k in ("mask", "2d"):
         mask = aa.Mask2D(mask=np.array(g["bits"], dtype=bool), pixel_scales=tuple(fl(v) for v in g["ps"]),
                          origin=tuple(fl(v) for v in g["org"]))
@@ -252,6 +253,7 @@ def build_grid(aa, g):
         else:
             cs = exact_centres(g) if k == "mask" else frps(g["cs"])
             vals = np.array([[float(a), float(b)] for a, b in cs]).reshape(-1, 2)
+            if dt is int and store == "slim": vals = vals.astype(int)
             if store == "slim": obj = aa.Grid2D(values=vals, mask=mask)
             elif store == "ctor_native": obj = aa.Grid2D(values=vals, mask=mask, store_native=True)
             else:
@@ -260,12 +262,13 @@ def build_grid(aa, g):
                 it = iter(junk); full = [next(it) if v is None else v for v in full]
                 H, W = len(g["bits"]), len(g["bits"][0])
                 obj = aa.Grid2D(values=np.array(full).reshape(H, W, 2), mask=mask, store_native=True)
-    elif k == "irr": obj = aa.Grid2DIrregular(values=[(fl(a), fl(b)) for a, b in g["cs"]])
-    elif k == "raw": obj = np.array([[fl(a), fl(b)] for a, b in g["cs"]]).reshape(-1, 2)
+    elif k == "irr":
+        obj = aa.Grid2DIrregular(values=[(dt(F(a)), dt(F(b))) for a, b in g["cs"]])
+    elif k == "raw": obj = np.array([[dt(F(a)), dt(F(b))] for a, b in g["cs"]], dtype=dt).reshape(-1, 2)
     elif k == "1d":
         mask = aa.Mask1D(mask=np.array(g["bits"], dtype=bool), pixel_scales=fl(g["ps"]), origin=(fl(g["org"]),))
         xs = [fl(v) for v in g["xs"]]
-        if store == "slim": obj = aa.Grid1D(values=np.array(xs), mask=mask)
+        if store == "slim": obj = aa.Grid1D(values=np.array(xs, dtype=dt), mask=mask)
         elif store == "ctor_native": obj = aa.Grid1D(values=np.array(xs), mask=mask, store_native=True)
         else:
             it = iter([fl(v) for v in g["junk"]])
@@ -364,7 +367,9 @@ def profile_class(aa, rmin):
             return np.sqrt(np.add(np.square(grid[:, 0]), np.square(np.divide(grid[:, 1], q))))
         def transformed_to_reference_frame_grid_from(self, grid, **kwargs):
             self.tf_calls += 1
-            arr = geometry_util.transform_grid_2d_to_reference_frame(grid_2d=to_nd(grid), centre=self.centre, angle=self.angle)
+            # the grid's own buffer goes into the frame map (no copy), as in PyAutoGalaxy's profiles
+            buf = grid.array if hasattr(grid, "array") else grid
+            arr = geometry_util.transform_grid_2d_to_reference_frame(grid_2d=buf, centre=self.centre, angle=self.angle)
             return grid.with_new_array(arr) if hasattr(grid, "with_new_array") else arr
         # single decorators
         @dec.to_array
@@ -543,7 +548,9 @@ def do_call(aa, ci, grid, sh, pool=None):
     else:
         parts = ("Stack", f"{DEC[ci['dec']]} {c_opt(None if rmin is None else F(rmin), cq)} {c_pt(fr2(ci['centre']))} "
                           f"{c_pt(fr2(ci['angle']))} {cbool(ci['nested'])}", tail)
-    return {"parts": parts, "notes": notes, "py_ok": py_ok, "raised": r[0] != "ok", "seen": seen, "out": out, "grid_after": grid}
+    res = {"parts": parts, "notes": notes, "py_ok": py_ok, "raised": r[0] != "ok", "seen": seen, "out": out}
+    if r[0] == "ok": res["result"] = r[1]
+    return res
 
 def k_term(parts, sh): return f"(K{parts[0]} {parts[1]} {c_gspec(sh)} {parts[2]})"
 def c_term(parts): return f"(C{parts[0]} {parts[1]} {parts[2]})"
@@ -619,6 +626,8 @@ def run_hist(aa, inp):
     for st in inp["steps"]:
         gi = st["gi"]
         if st["t"] == "edit":
+            if gi >= len(objs): continue
+            if st["k"] >= len(sh_stored(shs[gi])): continue
             py_edit(objs[gi], st["k"], st["v"], st.get("comp"))
             old = sh_stored(shs[gi])[st["k"]]
             shs[gi] = sh_edit(shs[gi], st["k"], st["v"], st.get("comp"))
@@ -629,8 +638,19 @@ def run_hist(aa, inp):
         fnd, band = classify(ci, shs[gi], e)
         if band:
             SKIPPED["band"] += 1; continue
+        if gi >= len(objs): continue                  # a grid that was to come out of an earlier call which raised / was skipped
         d = do_call(aa, ci, objs[gi], shs[gi], pool)
         post = stored_of(objs[gi])
+        if st.get("feed") and "result" in d:
+            # the returned grid becomes an input of later steps (its contents: what the call returned, already compared above)
+            r = d["result"]
+            if type(r).__name__ == "Grid2D":
+                m = enc_mask2(r.mask)
+                nsh = {"k": "2d", "bits": m["bits"], "ps": [S(v) for v in m["ps"]], "org": [S(v) for v in m["org"]], "cs": enc_pairs(slim_nd(r))}
+            elif type(r).__name__ == "Grid2DIrregular": nsh = {"k": "irr", "cs": enc_pairs(to_nd(r))}
+            else: nsh = None
+            if nsh is not None and holds(r, nsh, e):
+                objs.append(r); shs.append(nsh); shs0.append(nsh)
         steps.append(f"(HCall {cnat(gi)} {c_term(d['parts'])} {c_pts(post)})")
         if not d["py_ok"]: py_ok = False; notes.append(f"step {len(steps) - 1}: " + "; ".join(d["notes"]))
         if fnd: finding = fnd
@@ -640,7 +660,8 @@ def run_hist(aa, inp):
         return {"coq": None, "out": "skipped: every call within 1e-3 of the radial minimum", "py_ok": None, "kind": "hist:skipped", "nontrivial": False}
     coq = f"(KHist {cz(e)} {clist([c_gspec(s) for s in shs0])} {clist(steps)})"
     res = {"coq": coq, "out": outs[:4], "py_ok": py_ok, "nontrivial": True,
-           "kind": "hist:" + "/".join(s["k"] + variant(g) for s, g in zip(shs0, inp["grids"])) + ("@2^%d" % e if e else "")}
+           "kind": "hist:" + "/".join(s["k"] + variant(g) for s, g in zip(shs0, inp["grids"])) + ("/fed" * (len(shs0) - len(inp["grids"])))
+                   + ("@2^%d" % e if e else "")}
     if not py_ok: res["detail"] = "; ".join(notes)
     elif finding: res["finding"] = finding
     return res
@@ -784,7 +805,7 @@ def native_1d(rng, g):
 
 # ---- scaled copies
 def scale_grid(g, un):
-    g = dict(g)
+    g = dict(g); g.pop("dtype", None)
     def sv(v): return S(F(v) * un)
     if "ps" in g: g["ps"] = sv(g["ps"]) if g["k"] == "1d" else [sv(v) for v in g["ps"]]
     if "org" in g: g["org"] = sv(g["org"]) if g["k"] == "1d" else [sv(v) for v in g["org"]]
@@ -840,6 +861,7 @@ def rand_call(rng, g, centre0, homogeneous=False):
     return st
 
 def n_stored(g):
+    if "n" in g: return g["n"]
     sh = shadow_of(g)
     return len(sh_stored(sh))
 def rand_hist(rng, e=0, kinds=("mask", "2d", "irr", "1d", "raw"), force_native1d=False, min_calls=2):
@@ -847,6 +869,7 @@ def rand_hist(rng, e=0, kinds=("mask", "2d", "irr", "1d", "raw"), force_native1d
     npf = near_pts(RMINS, p0=0.02)
     def pts(r, n): return npf(r, n, c=c0 if rng.random() < 0.5 else (F(0), F(0)), rm=rng.choice(RMINS))
     g0 = rand_grid(rng, kinds=kinds, pts=pts)
+    if rng.random() < 0.08: g0 = as_int(rng, g0)
     if g0["k"] == "1d" and (force_native1d or rng.random() < 0.5): g0 = native_1d(rng, g0)
     else: g0 = add_variant(rng, g0, native2d=rng.random() < 0.3, p_plain=0.4)
     grids = [g0]
@@ -856,14 +879,21 @@ def rand_hist(rng, e=0, kinds=("mask", "2d", "irr", "1d", "raw"), force_native1d
         if g1["k"] == "mask": g1["k"] = "2d"
         if g1["k"] == "1d": g1["xs"] = [S(F(rng.randint(-64, 64), 8)) for _ in g0["xs"]]
         else: g1["cs"] = pts(rng, len(g0["cs"]) if "cs" in g0 else n_coords(g0))
+        if g0.get("dtype") == "int": g1 = as_int(rng, g1)
         grids.append(g1)
     steps = []
     ncall = rng.randint(min_calls, 4)
     for c in range(ncall):
         gi = rng.randrange(len(grids))
         st = rand_call(rng, grids[gi], c0, homogeneous=e != 0); st["gi"] = gi
-        if c and rng.random() < 0.4: st = dict(steps[[j for j, x in enumerate(steps) if x["t"] == "call"][-1]], o=st["o"])     # the same call again
+        if c and rng.random() < 0.4:     # the same call again (perhaps through another profile object)
+            st = dict(steps[[j for j, x in enumerate(steps) if x["t"] == "call"][-1]], o=st["o"]); st.pop("feed", None); gi = st["gi"]
         steps.append(st)
+        gk = grids[gi]
+        if (st["op"] in ("make", "stack") and st.get("dec") == "grid" and not st["u"]["list"] and gk["k"] in ("mask", "2d", "irr", "1d")
+                and gk.get("store", "slim") == "slim" and "native" not in gk.get("derive", []) and rng.random() < 0.6 and c + 1 < ncall):
+            st["feed"] = True                        # the returned Grid2D / Grid2DIrregular is used as a grid from now on
+            grids.append({"k": "irr" if gk["k"] == "irr" else "2d", "n": gk["n"] if "n" in gk else n_coords(gk), "virtual": True})
         if c + 1 < ncall and rng.random() < 0.45:
             gi = rng.randrange(len(grids)); g = grids[gi]
             n = n_stored(g)
@@ -873,13 +903,25 @@ def rand_hist(rng, e=0, kinds=("mask", "2d", "irr", "1d", "raw"), force_native1d
                 comp = rng.choice([None, None, 0, 1])
                 pv = pts(rng, 1)[0]
                 v = pv if comp is None else pv[comp]
+            if g.get("dtype") == "int":            # numpy would truncate: integer grids get integer edits
+                v = S(rng.randint(-6, 6)) if not isinstance(v, list) else [S(rng.randint(-6, 6)), S(rng.randint(-6, 6))]
             steps.append({"t": "edit", "gi": gi, "k": kk, "v": v, "comp": comp})
+    grids = [g for g in grids if not g.get("virtual")]
     inp = {"op": "hist", "e": e, "rpc": rng.random() < 0.5, "grids": grids, "steps": steps}
     if e:
         un = unit(e)
         inp["grids"] = [scale_grid(g, un) for g in grids]; inp["steps"] = [scale_step(st, un) for st in steps]
     return inp
 
+def int_pts(rng, n):
+    return [[S(rng.randint(-6, 6)), S(rng.randint(-6, 6))] for _ in range(n)]
+def as_int(rng, g):
+    """the same kind of grid with integer coordinates held in an integer array (structures keep the dtype they are given)"""
+    g = dict(g); g["dtype"] = "int"
+    if g["k"] == "1d": g["xs"] = [S(rng.randint(-9, 9)) for _ in g["xs"]]
+    elif g["k"] == "mask": g["k"] = "2d"; g["cs"] = int_pts(rng, n_coords(g))
+    else: g["cs"] = int_pts(rng, len(g["cs"]))
+    return g
 def full_pts(rng, n):
     """coordinates with full 53-bit mantissas (nothing on a lattice), a few exact zeros"""
     def one():
@@ -896,6 +938,7 @@ def gen_inputs(tier, rng):
     for i in range(130 * N):
         dec = decs[i % 3]
         g = rand_grid(rng, pts=full_pts if i % 4 == 3 else None)
+        if i % 11 == 5: g = as_int(rng, g)
         if g["k"] == "1d" and i % 2:
             g = native_1d(rng, g)
         else: g = add_variant(rng, g, native2d=True)
@@ -924,6 +967,7 @@ def gen_inputs(tier, rng):
         def pts(r, n): return npf(r, n, rm=rmin)
         kinds = ("2d", "irr", "raw") if i % 5 else ("mask",)
         g = rand_grid(rng, kinds=kinds, pts=full_pts if i % 6 == 1 else pts)
+        if i % 11 == 5: g = as_int(rng, g)
         g = add_variant(rng, g, p_plain=0.6)
         rad = ["euclid"] if i % 4 else ["ellip", rng.choice(["2", "1/2"])]
         u = rand_ufun(rng, rng.choice("VP")) if i % 3 else IDENT
@@ -939,6 +983,7 @@ def gen_inputs(tier, rng):
             centre = (F(g["org"][0]) + F(rng.randint(-2, 2), 2) * F(g["ps"][0]), F(g["org"][1]) + F(rng.randint(-2, 2), 2) * F(g["ps"][1]))
         else:
             g = rand_grid(rng, kinds=("2d", "irr", "raw", "1d"), pts=pts)
+            if i % 11 == 5: g = as_int(rng, g)
         if g["k"] == "1d" and i % 2: g = native_1d(rng, g)
         else: g = add_variant(rng, g, p_plain=0.6)
         if g["k"] == "1d" and dec == "vector": dec = "array"
